@@ -413,6 +413,45 @@ var libTemplates = []libTemplate{
 		b, _ := tree.RandomYuleBinaryTree(9, false)
 		return a.Newick() + b.Newick(), nil
 	}},
+	{"lib edits on indexed trees", func(in map[string]string, seed int64) (string, error) {
+		// the editing calls on trees whose indexes are initialised (as after ReinitIndexes): nothing may depend on the
+		// iteration order of the name index
+		ts, err := readTreesFile(in["@B"])
+		if err != nil {
+			return "", err
+		}
+		var sb strings.Builder
+		rand.Seed(seed)
+		for i, t := range ts {
+			if err := t.ReinitIndexes(); err != nil {
+				return "", err
+			}
+			switch i % 6 {
+			case 0:
+				err = t.RemoveTips(false, "t2", "t4", "t6", "t8", "t1")
+			case 1:
+				err = t.RemoveTips(true, "t2", "t4", "t6", "t8", "t1")
+			case 2:
+				err = t.RerootOutGroup(false, false, "t3", "t5")
+			case 3:
+				err = t.InsertIdenticalTips([][]string{{"t1", "x1", "x2"}, {"t5", "x3"}, {"x3", "x4"}})
+			case 4:
+				t.CollapseShortBranches(0.5, false, false)
+				t.Resolve()
+			default:
+				err = t.RerootMidPoint()
+			}
+			if err != nil {
+				sb.WriteString("error: " + err.Error() + "\n")
+				continue
+			}
+			sb.WriteString(t.Newick() + "\n")
+			c := t.Clone()
+			c.UnRoot()
+			sb.WriteString(c.Newick() + "\n")
+		}
+		return sb.String(), nil
+	}},
 	{"lib Rename", func(in map[string]string, seed int64) (string, error) {
 		ts, err := readTreesFile(in["@T"])
 		if err != nil {
